@@ -40,7 +40,7 @@ Proof. cbn. intuition discriminate. Qed.
 Lemma reread_info_ok : forall lazy num key o,
   ~ In 61 key ->
   match o with
-  | Some (Some v) => val_ok FOK CInfo lazy v /\ typed num TInteger v
+  | Some (Some v) => val_ok FOK v /\ typed num TInteger v
   | _ => True
   end ->
   reread_info fmt_float prs_float lazy num key o = Some (Some o).
